@@ -13,9 +13,17 @@ def guard(f):
     except Exception as e:
         return {"raise": type(e).__name__}
 
+NOTE_NAMES = ["C", "C#", "D", "Eb", "E", "F", "F#", "G", "Ab", "A", "Bb", "B"]
+
+def live_key(keys, sl):
+    """the Key object of a slot; a slot that holds a key STRING ("D name") builds the key from the string on every use,
+    as an event does"""
+    k = keys[sl]
+    return Key(k) if isinstance(k, str) else k
+
 def key_source(keys, spec):
     """the KEY argument of a tonal pattern: one key object, or a PSequence of key objects (a progression)"""
-    pick = (lambda sl: keys[sl].scale) if spec.get("as_scale") else (lambda sl: keys[sl])
+    pick = (lambda sl: live_key(keys, sl).scale) if spec.get("as_scale") else (lambda sl: live_key(keys, sl))
     if "const" in spec:
         return pick(spec["const"])
     return iso.PSequence([pick(sl) for sl in spec["seq"]], spec["repeats"])
@@ -27,10 +35,13 @@ def pull(p, n, split):
     return list(p.nextn(split)) + list(p.nextn(n - split))
 
 def run_session(sess):
-    """one process history: scales and keys are built, re-configured and queried in the order given.
-    Nothing is reset between the operations (that is the point); results are aligned with the operations."""
+    """one process history: scales and keys are built, copied, re-tuned IN PLACE and queried, patterns are created and
+    asked for values, in the order given.  Nothing is reset between the operations (that is the point); results are
+    aligned with the operations."""
+    import copy as pycopy
+    from isobar.timelines.event import Event, EventDefaults
     saved = dict(Scale.dict)
-    scales, keys, out = {}, {}, []
+    scales, keys, pats, out = {}, {}, {}, []
     for op in sess["ops"]:
         kind = op["op"]
         def do():
@@ -43,11 +54,45 @@ def run_session(sess):
                         scales[op["id"]] = Scale(list(op["semis"]))
                     else:
                         scales[op["id"]] = Scale(list(op["semis"]), octave_size=op["osize"])
-                else:
+                else:                         # "named" (a name shared by several scales) / "registered" (a name of its own)
                     scales[op["id"]] = Scale(list(op["semis"]), op["name"], octave_size=op["osize"])
+                return None
+            if kind == "scalecopy":
+                src, how = scales[op["src"]], op["how"]
+                if how == "copy()":
+                    scales[op["id"]] = src.copy()
+                elif how == "copy.copy":
+                    scales[op["id"]] = pycopy.copy(src)
+                elif how == "copy.deepcopy":
+                    scales[op["id"]] = pycopy.deepcopy(src)
+                else:
+                    scales[op["id"]] = Scale(list(src.semitones), src.name, octave_size=src.octave_size)
                 return None
             if kind == "key":
                 keys[op["slot"]] = Key(op["tonic"], scales[op["scale"]])
+                return None
+            if kind == "keynamed":            # the scale is reached through the name it is registered under
+                how, name, t = op["how"], op["name"], op["tonic"]
+                if how == "Key(t,name)":
+                    keys[op["slot"]] = Key(t, name)
+                elif how == "Key(note,name)":
+                    keys[op["slot"]] = Key(NOTE_NAMES[t], name)
+                elif how == "Key('note name')":
+                    keys[op["slot"]] = Key("%s %s" % (NOTE_NAMES[t], name))
+                elif how == "Key(t,byname)":
+                    keys[op["slot"]] = Key(t, Scale.byname(name))
+                else:                         # "string": the slot holds the string; every use builds Key(string)
+                    keys[op["slot"]] = "%s %s" % (NOTE_NAMES[t], name)
+                return None
+            if kind == "keycopy":
+                src, how = keys[op["src"]], op["how"]
+                if how == "copy.copy":
+                    keys[op["slot"]] = pycopy.copy(src)
+                elif how == "copy.deepcopy":
+                    keys[op["slot"]] = pycopy.deepcopy(src)
+                    scales[op["id"]] = keys[op["slot"]].scale
+                else:
+                    keys[op["slot"]] = Key(src.tonic, src.scale)
                 return None
             if kind == "retune":
                 keys[op["slot"]].tonic = op["tonic"]
@@ -55,6 +100,29 @@ def run_session(sess):
             if kind == "rescale":
                 keys[op["slot"]].scale = scales[op["scale"]]
                 return None
+            if kind == "setsemis":            # the Scale OBJECT is re-tuned: every key that refers to it follows
+                sc, how = scales[op["scale"]], op["how"]
+                if op.get("through") is not None:     # key.scale.semitones = ... : the same object, reached through a key
+                    sc = keys[op["through"]].scale
+                if how == "assign":
+                    sc.semitones = list(op["semis"])
+                elif how == "inplace":
+                    sc.semitones[:] = list(op["semis"])
+                else:                          # what Scale.change() does, with the two positions given
+                    i, j = op["swap"]
+                    sc.semitones[i], sc.semitones[j] = sc.semitones[j], sc.semitones[i]
+                return None
+            if kind == "setosize":
+                scales[op["scale"]].octave_size = op["osize"]
+                return None
+            if kind == "popen":               # a pattern object that lives on: it is asked for values again later
+                fn = op["fn"]
+                mel = iso.PSequence(list(op["xs"]), 1)
+                src = key_source(keys, op["keys"])
+                pats[op["pid"]] = {"pfilter": iso.PFilterByKey, "psnap": iso.PNearestNoteInKey, "pdegree": iso.PDegree}[fn](mel, src)
+                return None
+            if kind == "pnext":
+                return list(pats[op["pid"]].nextn(op["n"]))
             fn, xs = op["fn"], op.get("xs", [])
             if fn in ("pfilter", "psnap", "pdegree", "chain"):
                 mel = iso.PSequence(list(xs), 1)
@@ -67,7 +135,13 @@ def run_session(sess):
                 else:
                     p = iso.PNearestNoteInKey(iso.PFilterByKey(mel, key_source(keys, op["keys"])), key_source(keys, op["keys2"]))
                 return pull(p, op["n"], op.get("split"))
-            key = keys[op["slot"]]
+            if fn == "event":                 # the degree of an event dictionary: the key as an object or as its string
+                karg = keys[op["slot"]]
+                return [guard(lambda: Event({"degree": d, "key": karg, "octave": 0, "transpose": 0}, EventDefaults()).note) for d in xs]
+            if fn == "scaleget":              # Scale.get on the key's Scale object (tonic not involved)
+                sc = live_key(keys, op["slot"]).scale
+                return [guard(lambda: sc.get(d)) for d in xs]
+            key = live_key(keys, op["slot"])
             if fn == "get":
                 return [guard(lambda: key.get(d)) for d in xs]
             if fn == "getitem":
